@@ -284,6 +284,12 @@ func wGenContent(tag string, focus int) wContent {
 			Expressions: []Expression{{Value{Variable("x")}, Value{Integer(vInt64(tag + ".c.k"))}, BinaryLessThan}}}
 		q2 := Rule{Head: Predicate{Name: "query"}, Body: []Predicate{{Name: wFixed(tag + ".c.b2"), IDs: []Term{wTerm(tag+".c.t", true, 0)}}}}
 		c.checks = []Check{{Queries: []Rule{q, q2}}}
+		if vChoose(tag+".c.bodyless", 2) == 1 {
+			// a query made of an expression alone (no predicate in its body): check if k1 < k2
+			q3 := Rule{Head: Predicate{Name: "query"},
+				Expressions: []Expression{{Value{Integer(vInt64(tag + ".c.k1"))}, Value{Integer(vInt64(tag + ".c.k2"))}, BinaryLessThan}}}
+			c.checks = []Check{{Queries: []Rule{q3, q2}}}
+		}
 	}
 	if focus == 4 {
 		c.context = vString(tag+".ctx", 2)
